@@ -117,6 +117,7 @@ type Out struct {
 	oracleN  int
 	checks   int
 	notes    []string
+	perSig   map[string]int
 }
 
 func Open(prop string) *Out {
@@ -198,7 +199,12 @@ func (o *Out) OracleFail(sig, what, replay string) {
 	o.mu.Lock()
 	defer o.mu.Unlock()
 	o.oracleN++
-	if o.oracleN > 200 {
+	if o.perSig == nil {
+		o.perSig = map[string]int{}
+	}
+	o.perSig[sig]++
+	// keep every distinct signature visible: at most 25 records per signature, 600 in total
+	if o.perSig[sig] > 25 || o.oracleN > 600 {
 		return
 	}
 	fmt.Fprintf(o.oracle, "%s\t%s\t%s\n", clean(sig), clean(what), clean(replay))
